@@ -17,11 +17,16 @@ RECORDS = ("fcppt::math", "fcppt::array", "fcppt::strong_typedef")
 
 def config(hooks=None):
     return sx.Config(inline_prefixes=("fcppt::",), record_prefixes=RECORDS, pure=("fcppt::array::object::get_unsafe",), ref_writes=True,
-                     lvalues=True, max_depth=80, max_steps=600000, hooks=hooks or {})
+                     lvalues=True, max_depth=80, max_steps=600000, hooks=hooks or {}, loop_bound=8)
 
 
 class Broken(Exception):
     pass
+
+
+class _Direct(Exception):
+    def __init__(self, corners):
+        self.corners = corners
 
 
 def hook_get(it, recv, args, d, unit, n):
@@ -125,22 +130,32 @@ def rules(rep, db, only):
             N = int(str(ta[1]).rstrip("U"))
             key = "%s|%s|N=%d" % (nm.split("::")[-1], ta[0], N)
             b, v = fn["params"][0]["name"], fn["params"][1]["name"]
+            bad = None
             try:
-                ps = sx.Interp(db, cfg).paths(fn)
-                if len(ps) != 1 or ps[0].outcome[0] != "return":
-                    raise Broken("%d paths" % len(ps))
-                res = P.Resolver(lambda r, k: Poly.atom((r, k)), lambda n: Poly.atom((n,)), ps[0].events)
-                got = box_atoms(res, ps[0].outcome[1])
+                ps = sx.Interp(db, cfg).paths(fn, limit=300)
+                for p in ps:
+                    if p.outcome[0] != "return":
+                        raise Broken("outcome %s" % p.outcome[0])
+                    res = P.Resolver(lambda r, k: Poly.atom((r, k)), lambda n: Poly.atom((n,)), p.events)
+                    res.opaque_division = True
+                    got = box_atoms(res, p.outcome[1])
+                    cond = []
+                    for d, t in p.decisions:
+                        cond.append("%s is %s" % (sx.show(d)[:80], t))
+                    for j in range(N):
+                        lo = Poly.atom((b + ".min_", j)) + sgn * Poly.atom((v, j))
+                        hi = Poly.atom((b + ".max_", j)) - sgn * Poly.atom((v, j))
+                        if got[j] != (lo, hi):
+                            def nm(a):
+                                return ("%s(..)" % a[0]) if a[0] in ("div", "mod") else "%s[%s]" % (a[0], ",".join(str(x) for x in a[1:]))
+                            bad = "%scoordinate %d of the result is [%s, %s), expected [%s, %s)" % (
+                                ("on the path where " + "; ".join(cond[-2:]) + ": ") if cond else "", j, got[j][0].show(nm), got[j][1].show(nm), lo.show(nm), hi.show(nm))
+                            break
+                    if bad:
+                        break
             except (Broken, sx.Unsupported, P.Unresolved) as e:
                 rep.broken("C13 BOXARITH %s: %s" % (key, e))
                 continue
-            bad = None
-            for j in range(N):
-                lo = Poly.atom((b + ".min_", j)) + sgn * Poly.atom((v, j))
-                hi = Poly.atom((b + ".max_", j)) - sgn * Poly.atom((v, j))
-                if got[j] != (lo, hi):
-                    bad = "coordinate %d of the result is [%s, %s), expected [%s, %s)" % (j, got[j][0].show(), got[j][1].show(), lo.show(), hi.show())
-                    break
             (rep.fail("BOXARITH", key, F.primary_site(fn), F.describe(fn), bad) if bad else rep.ok("BOXARITH", key, F.primary_site(fn), F.describe(fn)))
     seen = set()
     for fn in db.fns("fcppt::math::box::corner_points"):
@@ -154,7 +169,14 @@ def rules(rep, db, only):
         try:
             bs = [f for f in db.fns("fcppt::math::vector::bit_strings") if tuple(f.get("targs") or []) == ta]
             if not bs:
-                raise Broken("bit_strings<%s> not instantiated" % ", ".join(ta))
+                # corner_points no longer goes through bit_strings: analyse it as it is
+                hooks = {"std::get": hook_get}
+                ps = sx.Interp(db, config(hooks)).paths(fn)
+                if len(ps) != 1 or ps[0].outcome[0] != "return":
+                    raise Broken("%d paths" % len(ps))
+                res = P.Resolver(lambda r, k: Poly.atom((r, k)), lambda n: Poly.atom((n,)), ps[0].events)
+                corners = [[res.poly(e) for e in P.storage_list(c)] for c in P.storage_list(ps[0].outcome[1])]
+                raise _Direct(corners)
             vals, proto = bit_strings_value(db, bs[0])
             protos = P.storage_list(proto)
 
@@ -176,6 +198,8 @@ def rules(rep, db, only):
                 raise Broken("%d paths" % len(ps))
             res = P.Resolver(lambda r, k: Poly.atom((r, k)), lambda n: Poly.atom((n,)), ps[0].events)
             corners = [[res.poly(e) for e in P.storage_list(c)] for c in P.storage_list(ps[0].outcome[1])]
+        except _Direct as d_:
+            corners = d_.corners
         except (Broken, sx.Unsupported, P.Unresolved) as e:
             rep.broken("C13 CORNERS %s: %s" % (key, e))
             continue
